@@ -37,12 +37,34 @@ def size_leaves(body, e, out, ops, depth=0, seen=None, sub=None):
                 clo = strip_refs(body.origin_operand(t["args"][1]))
                 out.append("closure:" + describe(body, clo, 0, sub).split("{")[0])
             return
+        key = t.get("local_key")
+        F = body.facts
+        if key and key in F.bodies and key not in anchors(F) and F.bodies[key].j["kind"] != "closure" and depth < 30:
+            # the size is computed by a private helper: its result expressions, in this frame's terms
+            hb = F.bodies[key]
+            hsub = {i + 1: describe(body, body.origin_operand(a), 0, sub) for i, a in enumerate(t["args"])}
+            for (dbb, si, x) in hb.defs.get(0, []):
+                size_leaves(hb, ("call", dbb) if si == "term" else hb.origin_rvalue(x), out, ops, depth + 1, set(), hsub)
+            return
         out.append(describe(body, e, 0, sub))
+        return
+    if e[0] == "agg" and e[1] in ("core::result::Result", "core::option::Option"):
+        if e[2] in ("Ok", "Some") and len(e[3]) == 1:
+            size_leaves(body, e[3][0], out, ops, depth + 1, seen, sub)
+        return
+    if e[0] == "field" and e[1][0] in ("bin",) and e[1][1] == "MulWithOverflow" and e[2] == 0 and (_is_bool_word(body, e[1][2]) or _is_bool_word(body, e[1][3])):
+        ops.add("select")
+        size_leaves(body, e[1][3] if _is_bool_word(body, e[1][2]) else e[1][2], out, ops, depth + 1, seen, sub)
         return
     if e[0] == "field" and e[1][0] in ("bin",) and e[1][1].endswith("WithOverflow") and e[2] == 0:
         ops.add("raw:" + e[1][1])
         size_leaves(body, e[1][2], out, ops, depth + 1, seen, sub)
         size_leaves(body, e[1][3], out, ops, depth + 1, seen, sub)
+        return
+    if e[0] == "bin" and e[1] in ("Mul", "MulWithOverflow", "MulUnchecked") and (_is_bool_word(body, e[2]) or _is_bool_word(body, e[3])):
+        # `(flag as usize) * x`: x when the flag is set, nothing otherwise
+        ops.add("select")
+        size_leaves(body, e[3] if _is_bool_word(body, e[2]) else e[2], out, ops, depth + 1, seen, sub)
         return
     if e[0] == "bin":
         ops.add("raw:" + e[1])
@@ -81,6 +103,24 @@ def size_leaves(body, e, out, ops, depth=0, seen=None, sub=None):
     out.append(describe(body, e, 0, sub))
 
 
+def _is_bool_word(body, e):
+    e = strip_refs(e)
+    if e[0] == "cast" and e[1] == "IntToInt":
+        x = strip_refs(e[2])
+        if x[0] == "phi":
+            return all(y[0] == "const" and y[2] in (0, 1) for y in x[1])
+        if x[0] in ("local", "mem", "param"):
+            return body.local_ty(x[1]) == "bool"
+        if x[0] == "call":
+            t = body.term(x[1])
+            return (not t["dest"]["p"]) and body.local_ty(t["dest"]["l"]) == "bool"
+        if x[0] == "bin" and x[1] in ("Lt", "Le", "Gt", "Ge", "Eq", "Ne"):
+            return True
+        if x[0] == "const" and x[1] == "bool":
+            return True
+    return False
+
+
 def rule_layout_agreement(ctx, rule="LAYOUT"):
     F = ctx.F
     lfc = F.bodies.get(HB + "layout_from_capacity")
@@ -112,7 +152,7 @@ def rule_layout_agreement(ctx, rule="LAYOUT"):
                 size_leaves(lfc, lfc.origin_operand(t["args"][0]), leaves, ops)
                 want = {hdr, CAP + "as_usize(p1)"}
                 got = set(l for l in leaves if not l.startswith("closure:")) - {usz}
-                ctx.ob(rule, lfc.path, "size=header+capacity", got == want and ops <= {"checked_add"},
+                ctx.ob(rule, lfc.path, "size=header+capacity", got == want and ops <= {"checked_add", "select"},
                        how="size = checked(size_of::<Header>() + capacity [+ size_of::<usize>() in the on-heap-length layout])",
                        detail="layout size is built from %s with %s" % (sorted(leaves), sorted(ops)))
                 al = describe(lfc, lfc.origin_operand(t["args"][1]))
@@ -146,19 +186,31 @@ def rule_layout_agreement(ctx, rule="LAYOUT"):
                 want = {hdr, newcap}
                 got = set(leaves)
                 extra = got - want - {usz}
-                ok = want <= got and not extra and ops <= {"wrapping_add", "saturating_add", "checked_add"}
+                ok = want <= got and not extra and ops <= {"wrapping_add", "saturating_add", "checked_add", "select"}
                 if F.ptr_bits == 64:
                     ok = ok and usz not in got
                 ctx.ob(rule, path, "realloc-new-size", ok, how="new size = size_of::<Header>() + new_capacity%s, the function layout_from_capacity computes" % (" (+ size_of::<usize>() when the length lives in the allocation)" if F.ptr_bits == 32 else ""),
                        detail="realloc's new size is built from %s with %s: disagrees with layout_from_capacity (the block would later be released with a different size)" % (sorted(leaves), sorted(ops)))
     # Header values: written only next to an allocator call, with the capacity that sized the block
     writers = {}
-    for path, b in F.bodies.items():
+
+    def hdr_aggs(b, sub, acc, d=2, seen=()):
         for bb, blk in enumerate(b.blocks):
-            for s in blk["stmts"]:
-                if s["k"] == "assign" and s["rv"]["k"] == "aggregate" and s["rv"].get("adt") == "repr::heap_buffer::Header":
-                    fs = [describe(b, b.origin_operand(f)) for f in s["rv"]["fields"]]
-                    writers.setdefault(path, []).append(fs)
+            for s_ in blk["stmts"]:
+                if s_["k"] == "assign" and s_["rv"]["k"] == "aggregate" and s_["rv"].get("adt") == "repr::heap_buffer::Header":
+                    acc.append([describe(b, b.origin_operand(f), 0, sub) for f in s_["rv"]["fields"]])
+        for bb, t in b.calls():
+            k = t.get("local_key")
+            if k and k in F.bodies and k not in anchors(F) and F.bodies[k].j["kind"] != "closure" and d > 0 and k not in seen:
+                hdr_aggs(F.bodies[k], {i + 1: describe(b, b.origin_operand(a), 0, sub) for i, a in enumerate(t["args"])}, acc, d - 1, seen + (k,))
+
+    for path, b in F.bodies.items():
+        if path not in anchors(F) or b.j["kind"] == "closure":
+            continue
+        acc = []
+        hdr_aggs(b, None, acc)
+        if acc:
+            writers[path] = acc
     expect = {HB + "allocate_ptr": "p1", HB + "realloc": "ok(%snew(p2))" % CAP}
     ctx.ob(rule, "repr::heap_buffer::Header", "writers", set(writers) == set(expect), how="Header built only in allocate_ptr and realloc",
            detail="Header aggregates are built in %s (audited: %s)" % (sorted(writers), sorted(expect)))
@@ -213,46 +265,73 @@ def _alloc_start_desc(b):
 def rule_null_checks(ctx, rule="NULLCHK"):
     """the result of alloc / realloc is tested with is_null on an edge dominating every other use;
     the null edge returns Err(ReserveError)"""
+    from guards import edge_fact
     F = ctx.F
     n = 0
     for path, b in F.bodies.items():
         for bb, t in b.calls():
             if callee_name(t) in ("alloc::alloc::alloc", "alloc::alloc::realloc", "alloc::alloc::alloc_zeroed"):
                 n += 1
-                dl = t["dest"]["l"]
-                # find is_null calls on this pointer
+                is_null_fact = lambda g, val: g[0] == "pred" and g[1].endswith("::is_null") and g[3] is val and g[2] is not None and _rooted_in_call(b, g[2], bb)
                 chk = [cb for cb, ct in b.calls() if callee_name(ct).endswith("::is_null") and _rooted_in_call(b, b.origin_operand(ct["args"][0]), bb)]
                 ctx.ob(rule, path, "is_null:" + callee_name(t), len(chk) >= 1, how="allocator result tested with is_null", detail="allocator result never tested for null")
                 if not chk:
                     continue
-                cb = chk[0]
-                # uses of the pointer other than the check must be dominated by the non-null edge
-                sw = b.term(cb)["target"]
-                st = b.term(sw)
-                nonnull = None
-                if st["k"] == "switch":
-                    for v, tb in st["arms"]:
-                        if v == 0:
-                            nonnull = tb
-                    null_t = st["otherwise"]
-                ok = nonnull is not None
-                bad_use = None
-                if ok:
-                    for ub, ut in b.calls():
-                        if ub in (bb, cb):
+                # every other use of the pointer lies behind the non-null edge of that test (whatever
+                # wraps the test: `if p.is_null()`, `if unlikely(p.is_null())`, a match on the bool)
+                ok, bad_use = True, None
+                for ub, ut in b.calls():
+                    if ub == bb or ub in chk or ub in b.debug_only_blocks():
+                        continue
+                    if any(_rooted_in_call(b, b.origin_operand(a), bb) for a in ut["args"]):
+                        if callee_name(ut).endswith("::is_null") or (ut.get("local_key") and _passes_through(F, ut["local_key"])):
                             continue
-                        if any(_rooted_in_call(b, b.origin_operand(a), bb) for a in ut["args"]):
-                            if not b.dominates(nonnull, ub):
-                                ok, bad_use = False, callee_name(ut)
+                        if not any(is_null_fact(g, False) for g in guards_at(b, ub)):
+                            ok, bad_use = False, callee_name(ut)
                 ctx.ob(rule, path, "use-after-check:" + callee_name(t), ok, how="every use of the pointer is dominated by the non-null edge",
                        detail="allocator result used (%s) on a path that did not pass the null test" % bad_use)
-                # null edge returns Err
-                if nonnull is not None:
+                # null edge returns Err and does nothing else
+                null_ts = []
+                for sb in range(b.n):
+                    st = b.term(sb)
+                    if st["k"] != "switch":
+                        continue
+                    for lab, tgt in [(v, x) for v, x in st["arms"]] + [("otherwise", st["otherwise"])]:
+                        f = edge_fact(b, sb, lab)
+                        if f and is_null_fact(f, True):
+                            null_ts.append(tgt)
+                ctx.ob(rule, path, "null-edge:" + callee_name(t), bool(null_ts), how="a branch on is_null exists", detail="no branch is taken on the null test of the allocator result")
+                for null_t in null_ts[:1]:
                     reach = b.reachable(null_t, unwind=False)
-                    calls = [callee_name(b.term(x)) for x in reach if b.term(x)["k"] == "call"]
+                    calls = [callee_name(b.term(x)) for x in reach if b.term(x)["k"] == "call" and not (b.term(x).get("local_key") and _is_noop(F, b.term(x)["local_key"]))]
                     errs = [x for x in reach for s in b.blocks[x]["stmts"] if s["k"] == "assign" and s["lhs"]["l"] == 0 and not s["lhs"]["p"] and s["rv"]["k"] == "aggregate" and s["rv"].get("variant_name") == "Err"]
                     ctx.ob(rule, path, "null->Err:" + callee_name(t), bool(errs) and not calls, how="null edge builds Err(ReserveError) and returns", detail="null edge does %s instead of just returning Err" % (calls or "not build Err"))
     ctx.need(rule, "crate", "allocator-sites", n >= 2, "only %d allocator call sites found" % n, how="%d allocator call sites" % n)
+
+
+def _is_noop(F, key, depth=0):
+    """a local fn with no effect: no stores through pointers, only calls to other such fns (cold_path())"""
+    hb = F.bodies.get(key)
+    if hb is None or depth > 2:
+        return False
+    for blk in hb.blocks:
+        for s in blk["stmts"]:
+            if s["k"] == "assign" and s["lhs"]["p"] and "deref" in s["lhs"]["p"]:
+                return False
+    for _, t in hb.calls():
+        k = t.get("local_key")
+        if not (k and _is_noop(F, k, depth + 1)):
+            return False
+    return True
+
+
+def _passes_through(F, key):
+    """a local bool -> bool hint such as `unlikely(cond)`: returns its argument, no effect"""
+    hb = F.bodies.get(key)
+    if hb is None or not _is_noop(F, key):
+        return False
+    ds = hb.defs.get(0, [])
+    return len(ds) == 1 and ds[0][1] != "term" and strip_refs(hb.origin_rvalue(ds[0][2])) == ("param", 1)
 
 
 def _rooted_in_call(body, e, bb, depth=0):
@@ -308,7 +387,7 @@ def rule_capacity_agreement(ctx, rule="C11-cap"):
         from typestate import Solver, T
         S = Solver(F)
         defs = sorted(describe(rc, ("call", bb) if si == "term" else rc.origin_rvalue(x)) for (bb, si, x) in rc.defs.get(0, []))
-        want_defs = sorted(["const:repr::MAX_INLINE_SIZE", HB + "capacity(repr::Repr::as_heap_buffer(p1))", "repr::static_buffer::StaticBuffer::len(repr::Repr::as_static_buffer(p1))"])
+        want_defs = sorted(["const:repr::MAX_INLINE_SIZE", HB + "capacity(p1)", "repr::static_buffer::StaticBuffer::len(p1)"])
         ctx.ob(rule, rc.path, "results", defs == want_defs, how="capacity() returns HeapBuffer::capacity / borrowed length / MAX_INLINE_SIZE", detail="capacity() can return %s (the write path uses MAX_INLINE_SIZE = %s bytes inline and HeapBuffer::capacity on the heap)" % (defs, M))
         exp = {"H": (HB + "capacity", "repr::static_buffer::StaticBuffer::len"), "S": ("repr::static_buffer::StaticBuffer::len", HB + "capacity"), "I": (None, None)}
         for k in ("I", "S", "H"):
@@ -327,7 +406,7 @@ def rule_capacity_agreement(ctx, rule="C11-cap"):
             if callee_name(t).startswith("core::slice::raw::from_raw_parts_mut"):
                 ln = strip_refs(sm.origin_operand(t["args"][1]))
                 ds = sorted(describe(sm, x) for x in _phi_leaves(sm, ln))
-                want = sorted([HB + "capacity(repr::Repr::as_heap_buffer(p1))", "const:repr::MAX_INLINE_SIZE"])
+                want = sorted([HB + "capacity(p1)", "const:repr::MAX_INLINE_SIZE"])
                 ctx.ob(rule, sm.path, "slice-len", ds == want, how="mutable slice length = capacity() arm by arm", detail="as_slice_mut slice length is %s, capacity() reports %s" % (ds, want))
         lay = F.layouts.get("repr::inline_buffer::InlineBuffer")
         ctx.ob(rule, "repr::inline_buffer::InlineBuffer", "array-len", lay and lay["size"] == M and F.layouts["repr::Repr"]["size"] == M, how="InlineBuffer / Repr are MAX_INLINE_SIZE = %s bytes" % M,
